@@ -107,6 +107,8 @@ def render(sc, tmp):
         lines.append("working_dir = %s" % wd)
         if w.get("use_sockets"):
             lines.append("use_sockets = True")
+        if w.get("stdin_socket") is not None:
+            lines.append("stdin_socket = s%d" % w["stdin_socket"])
         if w.get("copy_env"):
             lines.append("copy_env = True")
         lines.append("")
@@ -463,6 +465,8 @@ def strategy(always_restart=False):
                      st.sampled_from(['VERIF_A', 'VERIF_B', 'HOME']),
                      st.sampled_from(['1', 'two', 'x y', '/p:q']),
                      max_size=2))}
+            if socks and draw(st.integers(0, 3)) == 0:
+                w["stdin_socket"] = draw(st.integers(0, len(socks) - 1))
             if socks and draw(st.booleans()):
                 w["use_sockets"] = True
                 w["socket_refs"] = sorted(set(draw(st.lists(
